@@ -1,8 +1,11 @@
 import Traph
 import Proofs.CoSchedules
 import Proofs.CoPhantom
-/-! C16 — cooperative interleaving of generators. The four generators are explicit coroutine state machines
-    (`Traph/Co.lean`) holding the same stale node copies as the Python generators; `Sys.run` / `runSched`
+import Proofs.CoReadOnly
+import Proofs.CoDrainExamples
+/-! C16 — cooperative interleaving of generators. All eleven `*_iter` generators of traph.py are explicit coroutine
+    state machines (`Traph/Co.lean`: the two writers, the page and network queries, and the seven other queries under
+    `CoSt.query`) holding the same stale node copies as the Python generators; `Sys.run` / `runSched`
     interleave them under any schedule. Proved (Proofs/Co*): for EVERY schedule the index stays well-formed and
     only grows (`C16_any_schedule_shape`), no writer fails (`C16_no_writer_fails`), the final pages are those of
     the requests applied one after another in any order (`C16_final_pages`, `_sequential_rulesOk`), link lists
@@ -21,6 +24,45 @@ theorem C16_pages_query_readonly (s : State) (p : PagesSt) : ((CoSt.pages p).res
 
 /-- a network query section never changes the index -/
 theorem C16_net_query_readonly (s : State) (n : NetSt) : ((CoSt.net n).resume s).1 = s := rfl
+
+/-- **every query generator is read-only**: a section of any of the nine query machines — pages, network, and the seven
+    of `QSt`: crawled pages, most linked pages, child webentities, page links, cited / citing webentities, slow network —
+    started in ANY private state (so: at every yield point of every schedule) returns the index it was given -/
+theorem C16_all_queries_readonly (s : State) :
+    (∀ p : PagesSt, ((CoSt.pages p).resume s).1 = s) ∧
+    (∀ n : NetSt, ((CoSt.net n).resume s).1 = s) ∧
+    (∀ q : CrawledSt, ((CoSt.query (.crawled q)).resume s).1 = s) ∧
+    (∀ q : MostSt, ((CoSt.query (.mostLinked q)).resume s).1 = s) ∧
+    (∀ q : ChildSt, ((CoSt.query (.children q)).resume s).1 = s) ∧
+    (∀ q : PlSt, ((CoSt.query (.pagelinks q)).resume s).1 = s) ∧
+    (∀ q : CitedSt, ((CoSt.query (.cited q)).resume s).1 = s) ∧
+    (∀ q : SlowSt, ((CoSt.query (.netSlow q)).resume s).1 = s) ∧
+    (∀ c : CoSt, c.isReader → (c.resume s).1 = s ∧ (c.resume s).2.1.isReader) :=
+  ⟨fun _ => rfl, fun _ => rfl, fun _ => rfl, fun _ => rfl, fun _ => rfl, fun _ => rfl, fun _ => rfl, fun _ => rfl,
+   fun c h => ⟨Traph.resume_reader_state s c h, Traph.resume_reader_reader s c h⟩⟩
+
+/-- a schedule that advances query generators only — any number of them, in any states, in any order — leaves the index
+    exactly as it was -/
+theorem C16_queries_only_schedule (sched : Sched) (σ : Sys) (h : ∀ c ∈ σ.2, c.isReader) :
+    (σ.run sched).1.1 = σ.1 :=
+  (Traph.readers_schedule sched σ h).1
+
+/-- the seven new machines drained on a fixed index give the atomic answers (kernel-evaluated instances on an index with
+    nested webentities, weighted / internal / inbound / outbound links and a missing prefix; `Proofs/CoDrainExamples`) -/
+theorem C16_drain_examples :
+    QSt.drain DrainEx.idx 100 (.crawled { cur := { prefixes := [DrainEx.pa, DrainEx.pb] } })
+      = DrainEx.idx.ask (.crawledPages [DrainEx.pa, DrainEx.pb]) ∧
+    QSt.drain DrainEx.idx 100 (.mostLinked { cur := { prefixes := [DrainEx.pa, DrainEx.pb] }, k := 3 })
+      = DrainEx.idx.ask (.mostLinked [DrainEx.pa, DrainEx.pb] 3 none) ∧
+    QSt.drain DrainEx.idx 100 (.children { cur := { prefixes := [DrainEx.pa], skip := true }, weid := 1 })
+      = DrainEx.idx.ask (.children 1 [DrainEx.pa]) ∧
+    QSt.drain DrainEx.idx 100 (.pagelinks { cur := { prefixes := [DrainEx.pa] }, weid := 1, incIn := true, incInt := true, incOut := true })
+      = DrainEx.idx.ask (.pagelinks 1 [DrainEx.pa] true true true) ∧
+    QSt.drain DrainEx.idx 100 (.cited { cur := { prefixes := [DrainEx.pa] }, out := true }) = DrainEx.idx.ask (.cited [DrainEx.pa] true) ∧
+    QSt.drain DrainEx.idx 100 (.cited { cur := { prefixes := [DrainEx.pa] }, out := false }) = DrainEx.idx.ask (.cited [DrainEx.pa] false) ∧
+    QSt.drain DrainEx.idx 100 (.netSlow { out := true, auto := true }) = DrainEx.idx.ask (.network true true true) :=
+  ⟨DrainEx.crawled_drain.1, DrainEx.mostLinked_drain.1, DrainEx.children_drain.1, DrainEx.pagelinks_drain.1,
+   DrainEx.cited_drain.1, DrainEx.cited_drain.2.1, DrainEx.netSlow_drain.1⟩
 
 /-- a finished generator cannot be advanced (StopIteration), and does not touch the index -/
 theorem C16_finished (s : State) : (CoSt.finished.resume s).1 = s ∧ (CoSt.finished.resume s).2.2 = .failed (.other "StopIteration") :=
